@@ -8,6 +8,7 @@ import (
 	"fmt"
 	"go/token"
 	"go/types"
+	"math"
 	"math/big"
 
 	"golang.org/x/tools/go/ssa"
@@ -729,6 +730,9 @@ func registerBig(e *Engine) {
 		if e.decide(st, FpPred("fp.isNaN", f)) {
 			abort("panic", "big.NewFloat(NaN)")
 		}
+		if f.IsConst() {
+			return e.newBigFloat(st, big.NewFloat(math.Float64frombits(f.c)))
+		}
 		return PtrVal{obj: st.alloc(BigFloatVal{f: f, prec: 53})}
 	}
 	ic["(*math/big.Float).SetFloat64"] = func(e *Engine, st *State, fr *Frame, in ssa.CallInstruction, a []Val) Val {
@@ -742,6 +746,14 @@ func registerBig(e *Engine) {
 		if pr == 0 {
 			pr = 53
 		}
+		if f.IsConst() {
+			x := new(big.Float).SetPrec(uint(pr)).SetFloat64(math.Float64frombits(f.c))
+			if cur.conc != nil && cur.prec == 0 {
+				x = new(big.Float).SetFloat64(math.Float64frombits(f.c))
+			}
+			st.hset(p.obj, BigFloatVal{f: f, prec: pr, conc: x})
+			return p
+		}
 		st.hset(p.obj, BigFloatVal{f: f, prec: pr})
 		return p
 	}
@@ -749,36 +761,42 @@ func registerBig(e *Engine) {
 		p := a[0].(PtrVal)
 		cur := getF(e, st, p)
 		pr := e.needInt(st, a[1], "SetPrec")
+		if cur.conc != nil {
+			x := new(big.Float).Copy(cur.conc).SetPrec(uint(pr))
+			f64, _ := x.Float64()
+			st.hset(p.obj, BigFloatVal{f: ConstF64(f64), prec: pr, conc: x})
+			return p
+		}
 		// identity on the value: the harness assumes representability at pr
 		st.hset(p.obj, BigFloatVal{f: cur.f, prec: pr})
 		return p
 	}
 	ic["(*math/big.Float).Float64"] = func(e *Engine, st *State, fr *Frame, in ssa.CallInstruction, a []Val) Val {
+		if c := getF(e, st, a[0]).conc; c != nil {
+			f64, acc := c.Float64()
+			return TupleVal{[]Val{ConstF64(f64), ConstBV(8, uint64(uint8(int8(acc))))}}
+		}
 		return TupleVal{[]Val{getF(e, st, a[0]).f, ConstBV(8, 0)}}
 	}
 	ic["(*math/big.Float).Signbit"] = func(e *Engine, st *State, fr *Frame, in ssa.CallInstruction, a []Val) Val {
+		if c := getF(e, st, a[0]).conc; c != nil {
+			return ConstBool(c.Signbit())
+		}
 		return FpPred("fp.isNegative", getF(e, st, a[0]).f)
 	}
 	ic["(*math/big.Float).Sign"] = func(e *Engine, st *State, fr *Frame, in ssa.CallInstruction, a []Val) Val {
+		if c := getF(e, st, a[0]).conc; c != nil {
+			return ConstBV(64, uint64(int64(c.Sign())))
+		}
 		f := getF(e, st, a[0]).f
 		return Ite(FpPred("fp.isZero", f), ConstBV(64, 0), Ite(FpPred("fp.isNegative", f), ConstBV(64, ^uint64(0)), ConstBV(64, 1)))
 	}
 	ic["(*math/big.Float).IsInf"] = func(e *Engine, st *State, fr *Frame, in ssa.CallInstruction, a []Val) Val {
+		if c := getF(e, st, a[0]).conc; c != nil {
+			return ConstBool(c.IsInf())
+		}
 		return FpPred("fp.isInfinite", getF(e, st, a[0]).f)
 	}
-	for _, n := range []string{"github.com/mewmew/float.IsExact16", "github.com/mewmew/float.IsExact32", "github.com/mewmew/float.IsExact64"} {
-		ic[n] = func(e *Engine, st *State, fr *Frame, in ssa.CallInstruction, a []Val) Val {
-			// unconstrained: both printer branches are explored
-			return Fresh("isexact", BoolS)
-		}
-	}
-	cutf := func(what string) interceptFn {
-		return func(e *Engine, st *State, fr *Frame, in ssa.CallInstruction, a []Val) Val {
-			abort("cut", "%s not modelled", what)
-			return nil
-		}
-	}
-	ic["(*math/big.Float).Text"] = cutf("big.Float.Text (decimal rendering)")
-	ic["math/big.ParseFloat"] = cutf("big.ParseFloat (decimal parsing)")
-	ic["(*math/big.Float).String"] = cutf("big.Float.String")
+	registerFloatBridge(e)
+
 }
